@@ -44,6 +44,9 @@ func (cfg *Config) VerifyConfig(schema base.LogSchema) ([]string, error) {
 	if _, lerr := schema.CreateFieldLocators(cfg.Keys); lerr != nil {
 		return nil, fmt.Errorf(".keys: %w", lerr)
 	}
+	if kerr := base.VerifyMetricKeyFields(cfg.Keys); kerr != nil {
+		return nil, fmt.Errorf(".keys: %w", kerr)
+	}
 
 	if len(cfg.TagTemplate) == 0 {
 		return nil, fmt.Errorf(".tag is unspecified")
